@@ -177,7 +177,17 @@ def run(rep, tier, seed):
                 rep.add(f"C08|anchor-missing|{nm}", f"{nm} not found", "ast.rs")
                 continue
             n["rules"] += 1
-            sk = synq.block_skel(f["body"])
+            synq.INLINE_METHODS.clear()
+            for k_, f_ in afns.items():
+                if k_.startswith("SourceRange::") and k_ != nm:
+                    b_ = f_.get("body") or []
+                    st_ = b_ if isinstance(b_, list) else b_.get("stmts", [])
+                    if len(st_) == 1 and st_[0].get("k") == "ExprStmt" and not st_[0].get("semi"):
+                        synq.INLINE_METHODS[k_.split("::")[-1]] = st_[0]["e"]
+            try:
+                sk = synq.block_skel(f["body"])
+            finally:
+                synq.INLINE_METHODS.clear()
             if "_.file" not in sk or "_.start.offset.._.end.offset" not in sk:
                 rep.add("C08|labels|range", f"{nm} does not use self.file and self.start.offset..self.end.offset ({sk})", "ast.rs")
     # every label location in the analyzer is a `.loc` of an AST node (or a stored SourceRange), never arithmetic
